@@ -68,6 +68,8 @@ lines = (c.stdout + c.stderr).strip().splitlines()
 summary['check'] = {'verdict': 'KILLED' if c.returncode == 0 else 'SURVIVED' if c.returncode == 1 else 'HARNESS-ERROR',
                     'tail': [l[:300] for l in lines if 'VIOLATION' in l or l.startswith(a.id + ' tier') or 'HARNESS' in l][-4:]}
 print(json.dumps(summary, indent=1))
+print('SEEDCONFIRM', a.dir or a.id, 'clean', summary['demo_clean'][0], 'patched', summary['demo_patched'][0], summary['baseline_with_patch'][:24],
+      summary['check']['verdict'], (summary['check']['tail'] or [''])[-1][:160])
 if a.keep:
     dst = os.path.join(VERIF, 'seeded', a.name or a.id)
     os.makedirs(dst, exist_ok=True)
